@@ -138,6 +138,16 @@ def run(ctx):
                     spec.midloss = 0
                     fault = r.choice(["none", "none", "lose-clean"])
                     at = r.randint(4, 8)
+            if si % 12 == 7:
+                # ... deterministically: the last capture is pending, a screen exists, the server closes (cleanly or not)
+                spec = build_session(r, kinds=["capture", "key"], ncmd=r.randint(1, 2))
+                spec.words = ["capture", "first.png"] + spec.words + [r.choice(["capture", "capture", "rcapture"]), "last.png"]
+                if spec.words[-2] == "rcapture":
+                    spec.words += ["0", "0", "3", "2"]
+                spec.timeout = r.choice([None, 5.0])
+                spec.lose_when_last_waits = r.choice([1, 1, 0])
+                fault, at = "none", 0
+                ctx.count("sessions_lost_while_the_last_capture_waits")
             if si % 6 == 4:
                 # a command that raises inside the chain (bad button, coordinate out of range, image that does not exist): the rest of
                 # the script is skipped, the connection stays up - and then the server goes away, cleanly
